@@ -44,17 +44,18 @@ extern void mpt_queue_align(MPT_STRUCT(queue) *queue, size_t pos)
 		return;
 	}
 	
-	/* split block into upper and lower part */
-	mpt_memrev(addr+queue->off, pv = pos-queue->off, queue->len);
+	/* split block into lower and upper part (data start moves to storage end) */
+	mpt_memrev(addr+queue->off, pv = queue->max-pos, queue->len);
+	
+	/* move upper part to buffer data end */
+	if (pv && pos != (queue->off + queue->len - pv))
+		(void) memmove(addr+pos, addr+queue->off+queue->len-pv, pv);
 	
 	/* move lower part to buffer data start */
 	if (queue->off)
-		(void) memmove(addr, addr+queue->off, pv);
+		(void) memmove(addr, addr+queue->off, queue->len-pv);
 	
-	pos = queue->max - (queue->len - pv);
-	
-	if (pos != (queue->off + pv))
-		(void) memmove(addr+pos, addr+queue->off+pv, queue->len-pv);
+	queue->off = pos;
 	
 	return;
 }
